@@ -1,3 +1,2 @@
--- This module serves as the root of the `BitcaskVerif` library.
--- Import modules here that should be built as part of the library.
-import BitcaskVerif.Basic
+import BitcaskVerif.Resp.Model
+import BitcaskVerif.Resp.Conn
